@@ -65,7 +65,7 @@ ASSUMPTIONS = [
     'remove+rename fall-back is judged like any other step of a save',
 ]
 REQUIRED_HITS = ['F1.later_save_after_interrupted_one', 
-    'E1.reload_unlock_checked', 'E1.relock_unlock_checked', 'E1.added_account_checked', 'E1.repassword_checked',
+    'E1.reload_unlock_checked', 'E1.relock_unlock_checked', 'E1.added_account_checked', 'E1.repassword_checked', 'E1.repassword_twice_in_session_checked',
     'E2.wrong_checked', 'E2.valid_padding_by_chance', 'E2.near_miss_checked', 'E2.old_password_checked',
     'E2.after_lock_checked',
     'E3.checked', 'E3.needle_selfcheck',
@@ -289,12 +289,28 @@ class StubDB:
         return False
 
 
+def other_device_dir():
+    """a writable directory on a file system other than the one holding the system temp directory (a wallet directory on another
+    volume than /tmp is ordinary; code that stages the new version in the temp directory then cannot rename it into place), or None"""
+    try:
+        here = os.stat(tempfile.gettempdir()).st_dev
+    except OSError:
+        return None
+    for cand in ('/dev/shm', '/var/tmp', os.path.expanduser('~'), '/run/user/%d' % os.getuid()):
+        try:
+            if os.path.isdir(cand) and os.access(cand, os.W_OK) and os.stat(cand).st_dev != here:
+                return cand
+        except OSError:
+            pass
+    return None
+
+
 class Env:
-    def __init__(self):
+    def __init__(self, base=None):
         boot.import_lbry()
         from lbry.wallet import WalletManager, Ledger, RegTestLedger, Headers
         from vlib.walletfx import FakeNetwork
-        self.dir = tempfile.mkdtemp(prefix='verif-c13-')
+        self.dir = tempfile.mkdtemp(prefix='verif-c13-', dir=base)
         self.manager = WalletManager()
         self.dbs = []
         for cls in (Ledger, RegTestLedger):
@@ -815,6 +831,29 @@ async def _roundtrip(rec, env, case):
         return
     if compare_snaps(rec, w4.accounts, snaps6, 'after-password-change-unlock', ctx, specs6):
         rec.hit('E1.repassword_checked')
+    # -- stage 8: the password is changed twice more on the SAME unlocked objects, without a reload in between (what two wallet_encrypt
+    # calls in one daemon session do).  The file must be readable with the LAST password only (seeded break C13-G kept ciphertext made
+    # with the earlier password)
+    pw3, pw4 = 'third password ' + pw2[:10], (near_misses(pw2)[(case['sub'] + 1) % 5] or 'fourth password')
+    if len({pw, pw2, pw3, pw4}) == 4:
+        try:
+            w4.encrypt(pw3)
+            w4.encrypt(pw4)
+        except Exception as e:  # noqa
+            rec.violation(f'C13/E1/encrypt-raises/{type(e).__name__}', f'changing the password twice in one session raised {e!r} ({ctx})', {})
+            return
+        check_e3(rec, path, needles6, 'after-two-password-changes-in-one-session', ctx)
+        w6 = env.reload(path)
+        ok = await wrong_loop(rec, w6, pw4, [pw3, pw2, pw], 'earlier-passwords-of-the-session', sidx6, first_kind, ctx, casekey, True)
+        if not ok:
+            return
+        if not await unlock_right(rec, w6, pw4, 'after-two-password-changes-in-one-session', ctx, seed_classes):
+            return
+        if compare_snaps(rec, w6.accounts, snaps6, 'after-two-password-changes-unlock', ctx, specs6):
+            rec.hit('E1.repassword_twice_in_session_checked')
+        w4.lock()
+        if not await unlock_right(rec, w4, pw4, 'in-memory-lock-after-two-password-changes', ctx, seed_classes):
+            return
     # observed, not judged: unlock() on a wallet that is not locked adopts whatever password it is given
     res = await w4.unlock('typo of ' + pw2[:20])
     if res and w4.encryption_password != pw2:
@@ -979,7 +1018,8 @@ CRASH_DELTAS = ('add-account', 'drop-account', 'rename-short', 'preference')
 FS_CALLS = (('fsync', 'os.fsync'), ('stat', 'os.stat'), ('rename', 'os.rename'), ('chmod', 'os.chmod'),
             ('remove', 'os.remove'), ('unlink', 'os.unlink'), ('replace', 'os.replace'), ('open', 'os.open'),
             ('write', 'os.write'), ('close', 'os.close'), ('truncate', 'os.truncate'), ('ftruncate', 'os.ftruncate'),
-            ('link', 'os.link'), ('fdatasync', 'os.fdatasync'))
+            ('link', 'os.link'), ('fdatasync', 'os.fdatasync'), ('sendfile', 'os.sendfile'), ('copy_file_range', 'os.copy_file_range'),
+            ('symlink', 'os.symlink'), ('mkdir', 'os.mkdir'), ('rmdir', 'os.rmdir'))
 
 
 def classify_disk(now, A, B):
@@ -1002,7 +1042,10 @@ def exec_crash(rec, case):
     boot.import_lbry()
     import lbry.wallet.wallet as wmod
     from lbry.wallet import WalletStorage
-    env = Env()
+    base = other_device_dir() if case.get('elsewhere') else None
+    if case.get('elsewhere'):
+        rec.hit('F1.wallet_dir_on_another_device_than_tmp' if base else 'F1.no_other_device_available')
+    env = Env(base)
     try:
         op, scenario, delta = case['op'], case['scenario'], case['delta']
         specs = case['accounts']
@@ -1129,6 +1172,7 @@ def exec_crash(rec, case):
         def make_trace(**kw):
             t = crash.OpTrace(**kw)
             t.patch_open(wmod)
+            t.patch_builtin_open_under(env.dir)      # whatever library code the save delegates to (shutil, tempfile ...) is traced too
             for attr, label in FS_CALLS:
                 if hasattr(os, attr):
                     t.patch(os, attr, label)
@@ -1263,7 +1307,7 @@ def crash_cases(tier):
                     delta = 'add-account'
                 out.append({'fam': 'crash', 'op': op, 'scenario': sc, 'delta': delta, 'sub': 1000 + n,
                             'pw': ['ascii', 'emoji', 'long-10k', 'nfd'][n % 4], 'accounts': specs_for(names, 500 + n),
-                            'all_prefixes': (not quick) and n % 6 == 0})
+                            'all_prefixes': (not quick) and n % 6 == 0, 'elsewhere': n % 3 == 0})
     return out
 
 
